@@ -391,7 +391,7 @@ func c03(r *hx.Run) {
 		rep := &hx.Reply{Status: c.Status, Header: c.Header, Body: hx.IdentBody(f, 30, "text"), Drop: c.Drop}
 		return rep
 	})
-	n := r.Pick(3000, 60000)
+	n := r.Pick(3000, 400000)
 	for i := 0; i < n && !r.TooMany(); i++ {
 		cur = c03Gen(rnd, i)
 		c03Run(r, w, cur)
